@@ -268,8 +268,8 @@ pub fn h_floor_quotient_exact(s: &mut In) -> HR {
     Ok(())
 }
 //@ props C09 C07
-//@ role decisive
-//@ tier thorough
+//@ role twin
+//@ twin_of floor_remainder
 pub fn h_floor_remainder_exact(s: &mut In) -> HR {
     let n = draw_exact(s);
     let d = draw_exact(s);
